@@ -264,7 +264,7 @@ def run_C13(ctx, R):
         for o in tmp.obs:
             if o.function in bnd3.MINIFY:
                 r.obs.append(o)
-        r.floor('OUT5', 'write-cursor obligations in the minify family', len(r.obs), 10)
+        r.floor('OUT5', 'write-cursor obligations in the minify family', len(r.obs), 5)
     _per_config(ctx, R, bnd3.bnd3_minify)
     _per_config(ctx, R, minify_out)
     _per_config(ctx, R, minify_loops)
